@@ -392,10 +392,11 @@ def sumproduct(*args):
     if len(sizes) != 1:
         return VALUE_ERROR
 
-    # put the values into numpy vectors
+    # put the values into numpy vectors (of python numbers: int64 products
+    # wrap around silently from 2**63 on)
     values = np.array(tuple(tuple(
         x if isinstance(x, (float, int)) and not isinstance(x, bool) else 0
-        for x in flatten(arg)) for arg in args))
+        for x in flatten(arg)) for arg in args), dtype=object)
 
     # return the sum product, as a python number so that functions which
     # test for int/float (SUM, COUNT, MAX, ISNUMBER...) recognize the result
